@@ -440,6 +440,18 @@ class Gen:
         if r.chance(1, 4):
             x = list(scope_pool[0]); x[3] = 'u%d' % (int(x[3][1:]) ^ 1); scope_pool.append(x)
             self.stats['scope_differs_in_dropped'] += 1
+        if r.chance(1, 3):
+            # identities that differ ONLY in one double attribute: NaN / another NaN payload / an ordinary
+            # value, +0.0 / -0.0 (sorted mode compares attribute values: it must keep them apart)
+            pairs = [('7ff8000000000001', '3ff0000000000000'), ('7ff8000000000001', '7ff8000000000002'),
+                     ('0000000000000000', '8000000000000000'), ('7ff8000000000001', '7ff0000000000000')]
+            a, b = r.choice(pairs)
+            base = [self.s(), self.u32()]
+            mk = lambda fb: ['A', '2', 's' + hx('k'), 'f' + fb, 's' + hx('z'), 's' + hx('v')]
+            res_pool += [base + mk(a), base + mk(b)]
+            sb = [self.s(), self.s(), self.s(), self.u32()]
+            scope_pool += [sb + mk(a), sb + mk(b)]
+            self.stats['identities_differ_in_special_double'] += 1
         trace_pool = [bytes(16), bytes([1] * 16)] + [bytes(r.below(256) for _ in range(16)) for _ in range(2)]
         out = ['TB']
         nres = r.choice([0, 1, 2, 2, 3, 4, 5]) if size > 1 else 1
